@@ -210,6 +210,10 @@ func ErrClass(err error) string {
 		return "unexpected-eof"
 	case errors.Is(err, os.ErrDeadlineExceeded):
 		return "timeout"
+	case errors.Is(err, ErrSource):
+		return "source-error"
+	case errors.Is(err, ErrSink):
+		return "sink-error"
 	case errors.Is(err, ss2022.ErrZeroLengthChunk):
 		return "zero-length-chunk"
 	case errors.Is(err, ss2022.ErrFirstRead):
